@@ -167,7 +167,8 @@ def rule_literal(ck):
     rec = p[0].value
     if not isinstance(rec, Rec) or "fn" not in rec.fields:
         raise Unknown("parser.radix50_chars is not a Parser object")
-    rx = rec.fields["fn"].env.vars.get("regex")
+    from ..rules.world import closure_pattern
+    rx = closure_pattern(rec)
     if not isinstance(rx, re.Pattern):
         raise Unknown("radix50_chars does not close over a compiled regex")
     import re._parser as rp
